@@ -208,6 +208,19 @@ func runC08(tier, scratch, replay string, nworkers int) *merged {
 				skipSets = append(skipSets, map[string]string{a: hows[i%3], c08SkipCandidates[j]: hows[j%3]})
 			}
 		}
+		patterns := c08Patterns
+		if tier == "thorough" {
+			patterns = append(append([]string{}, c08Patterns...), "TestA/v1", "TestA/v1$", "TestA/^v1$", "v1", "TestA/v1/list", "TestA/v1\\.1", "Test./x", "^TestA$/^x$", "TestSub/1",
+				"TestSub/sub|TestA/x", "TestA/v1/^list$", "Test(A|B)/x", "TestB|TestA/v1#x", "Fuzz", "FuzzA/seed", "^(TestA|TestSub)$/^(x|sub)$")
+			// sets of three skips
+			for i := 0; i < len(c08SkipCandidates); i++ {
+				for j := i + 1; j < len(c08SkipCandidates); j++ {
+					for k := j + 1; k < len(c08SkipCandidates); k++ {
+						skipSets = append(skipSets, map[string]string{c08SkipCandidates[i]: "skip", c08SkipCandidates[j]: "skipf", c08SkipCandidates[k]: "skipnow"})
+					}
+				}
+			}
+		}
 		var pnames []string
 		for n := range progs {
 			pnames = append(pnames, n)
@@ -218,7 +231,7 @@ func runC08(tier, scratch, replay string, nworkers int) *merged {
 				if !c08SkipsExist(progs[pn], ss) {
 					continue
 				}
-				for pi, pat := range c08Patterns {
+				for pi, pat := range patterns {
 					for _, env := range []string{"clean", ""} {
 						for _, srt := range []bool{false, true} {
 							if tier == "quick" {
@@ -233,6 +246,9 @@ func runC08(tier, scratch, replay string, nworkers int) *merged {
 								}
 							}
 							cells = append(cells, c08Cell{Program: pn, Skips: ss, Run: pat, Env: env, Sort: srt, Count: 1})
+							if tier == "thorough" && !srt && (pi+si)%2 == 0 {
+								cells = append(cells, c08Cell{Program: pn, Skips: ss, Run: pat, Env: env, Count: 2})
+							}
 						}
 					}
 				}
@@ -246,7 +262,7 @@ func runC08(tier, scratch, replay string, nworkers int) *merged {
 		}
 	}
 	m.bounds["programs"] = len(progs)
-	m.bounds["patterns"] = c08Patterns
+	m.bounds["patterns_quick"] = c08Patterns
 	m.bounds["skip_candidates"] = c08SkipCandidates
 	m.bounds["cells"] = len(cells)
 	ws, err := e3Workers(scratch, nworkers)
